@@ -552,6 +552,13 @@ func (r *rateLimiter) Close() {
 // amplificationAttackPrevention is a dialDataRequestPolicy which requests data when the peer's observed
 // IP address is different from the dial back IP address
 func amplificationAttackPrevention(observedAddr, dialAddr ma.Multiaddr) bool {
+	// The remote address of a relayed connection starts with the address of the
+	// relay. Its IP is not the IP the request came from, which we cannot know:
+	// always ask for dial data, or a client could have us dial the relay's host
+	// (on a port of its choosing) for free.
+	if _, err := observedAddr.ValueForProtocol(ma.P_CIRCUIT); err == nil {
+		return true
+	}
 	observedIP, err := manet.ToIP(observedAddr)
 	if err != nil {
 		return true
